@@ -120,7 +120,7 @@ func runCut(e *Env, prop string) {
 	unsubDone := false
 	unsubCalled := false
 	doUnsub := func() {
-		if unsubCalled || h == nil || h.S == nil {
+		if unsubCalled || h == nil || h.Sub() == nil {
 			return
 		}
 		unsubCalled = true
@@ -130,7 +130,7 @@ func runCut(e *Env, prop string) {
 					e.Violate(prop, "unsubscribe-panics", fmt.Sprintf("Unsubscribe panicked: %v", r))
 				}
 			}()
-			h.S.Unsubscribe()
+			h.Sub().Unsubscribe()
 		}()
 		unsubDone = true
 	}
@@ -146,7 +146,7 @@ func runCut(e *Env, prop string) {
 	h = e.Subscribe(o, rec.Observer(), nil)
 	if cut >= 0 {
 		e.Go("canceller", func() {
-			e.WaitFor(func() bool { return h.Returned && len(rec.Events) >= cut })
+			e.WaitFor(func() bool { return h.Ret() && len(rec.Events) >= cut })
 			doUnsub()
 		})
 	}
@@ -165,7 +165,7 @@ func runCut(e *Env, prop string) {
 		return false
 	}
 	closed := func() bool {
-		return h.Returned && h.S != nil && h.S.IsClosed() && (cut < 0 || unsubDone || rec.Terminal() != 0) && !inFlight()
+		return h.Ret() && h.Sub() != nil && h.Sub().IsClosed() && (cut < 0 || unsubDone || rec.Terminal() != 0) && !inFlight()
 	}
 	ok := e.RunUntil(closed, 400)
 	for _, s := range srcs {
